@@ -304,7 +304,9 @@ def run_property(prop, tier='quick', seed=0, out=sys.stdout):
         except Exception:
             rr = {}
         thorough_bounded = dict(kind='bounded simulation monitor (never counted as discharged)', scope=rr.get('scope'),
-                                failures=rr.get('failures'), observed=rr.get('observed'))
+                                failures=rr.get('failures'), observed=rr.get('observed'), known_findings=rr.get('known_findings', []))
+        for kfl in rr.get('known_findings', []):
+            print(f"KNOWN-FINDING: property={prop} bounded-simulations {kfl}", file=out)
         if ok:
             print(f"VIOLATION property={prop} replay={path} obligation=bounded-simulations (thorough tier: a failing run of the real code)", file=out)
             new_violations = new_violations + [(f"bounded-simulations:{prop}", [])]
